@@ -89,7 +89,7 @@ def cases(tier, seed):
                 idx += 1
     for dims in ([(40, 30), (36, 24), (30, 22), (24, 16)] if tier == "quick" else [(20, 14), (24, 16), (30, 20), (40, 30), (36, 24), (30, 22), (48, 40), (26, 13)]):
         for solver in (("hybrid",) if tier == "quick" else ("rsp_column_spd", "hybrid")):      # the SPD sketch solver takes ~20 s per problem of this size
-            out.append({"kind": "run", "cls": solver + ":wide_block", "solver": solver, "idx": idx, "seed": seed, "maxd": maxd, "nseeds": 1, "dims": list(dims),
+            out.append({"kind": "run", "cls": solver + ":wide_block", "solver": solver, "idx": idx, "seed": seed, "maxd": maxd, "nseeds": 2, "dims": list(dims),
                         "wide_block": True})
             idx += 1
     for st_ in ("herm_pd", "nearly_herm_pd", "nearly_herm_pd", "diag", "upper_tri", "unitary_scaled", "real_only", "zero_row_tall", "column_scaled", "row_scaled"):
@@ -160,6 +160,8 @@ def _matrix(rng, spec, orientation):
         s = embed.svals(A)
         return A, embed.pinv(A), s, float(s[0] / s[-1])
     kap = float(rng.choice([1.0, 10.0, 1e2, 1e3], p=[0.3, 0.4, 0.2, 0.1]))
+    if spec.get("wide_block"):
+        kap = float(rng.choice([3.0, 5.0, 10.0]))          # mild conditioning: the inner solves then pass slowly through the 1e-3 .. 1e-8 range
     scale = float(rng.choice([1e-2, 1.0, 1.0, 1e2]))
     s = (np.geomspace(kap, 1.0, N) if N > 1 else np.array([1.0])) * scale
     A, U, V = refq.with_singular_values(rng, m, n, s)
